@@ -31,6 +31,8 @@ use crate::{
 pub const CAP: usize = 4; // capacity of receive buffers
 pub const CHUNK: usize = 3; // bytes written per MakeReady of an In port
 pub const FILE_LEN: usize = 64;
+/// descriptor-handle ids of dup()ed descriptors: DUP_FD_BASE + operation index
+pub const DUP_FD_BASE: u32 = 100;
 
 pub static STUCK_SEEN: AtomicUsize = AtomicUsize::new(0);
 static UNIQ: AtomicU64 = AtomicU64::new(1);
@@ -408,8 +410,16 @@ struct OpState {
     cancel_step: Option<u32>,
     ids: Vec<u64>,
     buf_id: u32,
+    /// id of the descriptor handle the operation uses (the resource's, or its own dup)
+    fd_id: u32,
+    /// the waker of the most recent hand poll (every hand poll uses a fresh one)
     waker: Arc<CountWaker>,
-    wakes_at_pending: Option<usize>,
+    /// the most recent hand poll returned Pending (so `waker` is the one registered)
+    pending_registered: bool,
+    /// hand polls that returned Pending so far (= distinct wakers the future was polled with)
+    pending_polls: u32,
+    /// mode Handover: the future was moved into a spawned task (stamp of that moment)
+    handed: Option<u64>,
     token: Option<CancelToken>,
     token_cancelled: bool,
     dirty: bool,
@@ -481,6 +491,8 @@ pub struct World<'a> {
     rt: Option<Runtime>,
     ops: Vec<OpState>,
     ress: Vec<Res>,
+    /// operation index -> its own dup()ed descriptor, until the operation is created
+    dup_fds: BTreeMap<usize, TrackedFd>,
     port_ready: Vec<u8>,
     pub ids: BTreeMap<u64, IdState>,
     pub trace: Vec<TEv>,
@@ -544,6 +556,7 @@ impl<'a> World<'a> {
             rt: Some(rt),
             ops: Vec::new(),
             ress: Vec::new(),
+            dup_fds: BTreeMap::new(),
             port_ready: vec![0; prog.ports().len()],
             ids: BTreeMap::new(),
             trace: Vec::new(),
@@ -582,8 +595,11 @@ impl<'a> World<'a> {
                 cancel_step: None,
                 ids: Vec::new(),
                 buf_id: i as u32,
+                fd_id: if spec.dup { DUP_FD_BASE + i as u32 } else { spec.res as u32 },
                 waker: Arc::new(CountWaker(AtomicUsize::new(0))),
-                wakes_at_pending: None,
+                pending_registered: false,
+                pending_polls: 0,
+                handed: None,
                 token,
                 token_cancelled: false,
                 dirty: false,
@@ -693,11 +709,21 @@ impl<'a> World<'a> {
                     (ResKind::File, Some(OwnedFd::from(f)))
                 }
             };
+            // operations that use a descriptor of their own: a dup of this resource's descriptor
+            if let Some(f) = &fd {
+                for (i, o) in self.prog.ops.iter().enumerate() {
+                    if o.res as usize == r && o.dup {
+                        assert!(matches!(kind, ResKind::Stream { .. }), "harness: dup of a non-stream resource");
+                        let d = TrackedFd::new(DUP_FD_BASE + i as u32, dup(f.as_raw_fd()), &self.sink);
+                        self.dup_fds.insert(i, d);
+                    }
+                }
+            }
             self.ress.push(Res {
                 kind,
                 fd: fd.map(|f| TrackedFd::new(fd_id, f, &self.sink)),
                 fd_id,
-                users_left: users.len(),
+                users_left: users.iter().filter(|o| !o.dup).count(),
             });
         }
     }
@@ -740,7 +766,7 @@ impl<'a> World<'a> {
         if cancels {
             for (i, o) in self.ops.iter().enumerate() {
                 if o.holder.is_some() {
-                    if o.spec.mode == Mode::Task {
+                    if o.spec.mode == Mode::Task || o.handed.is_some() {
                         v.push(Step::CancelTask(i as u8));
                     } else {
                         v.push(Step::DropFut(i as u8));
@@ -850,7 +876,7 @@ impl<'a> World<'a> {
     fn guard_held_storage(&mut self) {
         for i in 0..self.ops.len() {
             let o = &self.ops[i];
-            if o.holder.is_none() || o.spec.mode == Mode::Task {
+            if o.holder.is_none() || o.spec.mode == Mode::Task || o.handed.is_some() {
                 continue;
             }
             let Some(id) = o.ids.iter().copied().find(|id| !self.ids[id].frees.is_empty()) else {
@@ -1017,20 +1043,26 @@ impl<'a> World<'a> {
         let sink = self.sink.clone();
         let bid = self.ops[i].buf_id;
         let r = spec.res as usize;
-        // the operation's own clone of the descriptor handle
-        let fd = self.ress[r].fd.clone();
-        self.ress[r].users_left -= 1;
-        if self.ress[r].users_left == 0 {
-            // the harness gives up its own handle: from now on the operations are the only owners
-            self.ress[r].fd = None;
-        }
+        let fd = if spec.dup {
+            // the operation's own descriptor (the harness keeps no handle to it)
+            self.dup_fds.remove(&i)
+        } else {
+            // the operation's own clone of the descriptor handle
+            let fd = self.ress[r].fd.clone();
+            self.ress[r].users_left -= 1;
+            if self.ress[r].users_left == 0 {
+                // the harness gives up its own handle: from now on the operations are the only owners
+                self.ress[r].fd = None;
+            }
+            fd
+        };
         let rt = self.rt.as_ref().unwrap();
         let token = self.ops[i].token.clone();
         macro_rules! wrap {
             ($f:expr) => {{
                 let f = $f;
                 match spec.mode {
-                    Mode::Direct => Holder::Fut(Box::pin(async move { Ok(f.await) })),
+                    Mode::Direct | Mode::Handover => Holder::Fut(Box::pin(async move { Ok(f.await) })),
                     Mode::Token => {
                         let t = token.expect("token");
                         Holder::Fut(Box::pin(async move { Ok(f.with_cancel(t).await) }))
@@ -1129,7 +1161,7 @@ impl<'a> World<'a> {
                 match spec.mode {
                     Mode::Direct => Holder::Stream(Box::pin(st)),
                     Mode::Token => Holder::Stream(Box::pin(st.with_cancel(token.expect("token")))),
-                    Mode::Task => panic!("harness: stream operations cannot be awaited in a task"),
+                    Mode::Task | Mode::Handover => panic!("harness: stream operations cannot be awaited in a task"),
                 }
             }
             Kind::Zc => {
@@ -1144,7 +1176,7 @@ impl<'a> World<'a> {
                 match spec.mode {
                     Mode::Direct => Holder::Stream(Box::pin(st)),
                     Mode::Token => Holder::Stream(Box::pin(st.with_cancel(token.expect("token")))),
-                    Mode::Task => panic!("harness: stream operations cannot be awaited in a task"),
+                    Mode::Task | Mode::Handover => panic!("harness: stream operations cannot be awaited in a task"),
                 }
             }
             Kind::ZcErr | Kind::ZcRst | Kind::ZcUx => {
@@ -1406,9 +1438,12 @@ impl<'a> World<'a> {
         let Some(mut h) = self.ops[i].holder.take() else {
             return ("gone".into(), false);
         };
+        // every hand poll uses a fresh waker (a distinct Arc with its own counter): the future
+        // must re-register, and the completion must invoke the MOST RECENT one
+        let prev = std::mem::replace(&mut self.ops[i].waker, Arc::new(CountWaker(AtomicUsize::new(0))));
+        let prev_wakes = prev.0.load(Ordering::SeqCst);
         let waker = Waker::from(self.ops[i].waker.clone());
         let mut cx = Context::from_waker(&waker);
-        let wakes_before = self.ops[i].waker.0.load(Ordering::SeqCst);
         let r: Poll<Option<Result<Outcome, String>>> = {
             let rt = self.rt.as_ref().unwrap();
             rt.enter(|| match &mut h {
@@ -1431,20 +1466,27 @@ impl<'a> World<'a> {
                         format!("op {i} ({}) got its final completion but its future/task handle is still Pending after a settle", self.opname(i)),
                     );
                 }
-                self.ops[i].wakes_at_pending = Some(self.ops[i].waker.0.load(Ordering::SeqCst));
+                self.ops[i].pending_registered = true;
+                self.ops[i].pending_polls += 1;
                 ("Pending".into(), false)
             }
             Poll::Ready(res) => {
                 // waker rule: between the Pending poll that registered the waker and this Ready
                 // poll the waker must have been invoked
-                if let Some(w0) = self.ops[i].wakes_at_pending.take() {
-                    if wakes_before <= w0 {
+                if std::mem::take(&mut self.ops[i].pending_registered) {
+                    if prev_wakes == 0 {
                         let class = format!("ready-without-wake:{}", self.opname(i));
                         self.fail(
                             "waker",
                             class,
-                            format!("op {i} ({}) became Ready but its waker was never invoked since the poll that returned Pending", self.opname(i)),
+                            format!(
+                                "op {i} ({}) became Ready but the waker of its most recent poll (the {}. poll that returned Pending, each with a waker of its own) was never invoked",
+                                self.opname(i),
+                                self.ops[i].pending_polls
+                            ),
                         );
+                    } else if self.ops[i].pending_polls >= 2 && self.ops[i].handed.is_none() && self.ops[i].spec.mode != Mode::Task {
+                        self.reach("repolled_with_new_waker_then_woken");
                     }
                 }
                 match res {
@@ -1520,6 +1562,30 @@ impl<'a> World<'a> {
     }
 
     fn do_poll(&mut self, i: usize) -> String {
+        if self.ops[i].spec.mode == Mode::Handover && self.ops[i].handed.is_none() {
+            // the probe (Submit step) left the future pending: hand it over to a task that awaits
+            // it; the task polls it with its own waker, the harness keeps the JoinHandle
+            let Some(Holder::Fut(f)) = self.ops[i].holder.take() else {
+                panic!("harness: handover of something that is not a future");
+            };
+            self.ops[i].handed = Some(verif::next_seq());
+            self.ops[i].pending_registered = false;
+            let rt = self.rt.as_ref().unwrap();
+            let h = rt.enter(|| {
+                let h = rt.spawn(f);
+                rt.run();
+                h
+            });
+            self.ops[i].holder = Some(Holder::Fut(Box::pin(async move {
+                match h.await {
+                    Ok(r) => r,
+                    Err(e) => Err(format!("{e:?}")),
+                }
+            })));
+            self.collect();
+            self.settle_pool();
+            return format!("HandedOver+{}", self.poll_holder(i));
+        }
         self.poll_holder(i)
     }
 
@@ -1948,6 +2014,7 @@ impl<'a> World<'a> {
         for r in self.ress.iter_mut() {
             r.fd = None;
         }
+        self.dup_fds.clear();
         // 4. let every pool job run to its end
         for r in &self.ress {
             if let ResKind::Gate(g) = &r.kind {
@@ -2212,6 +2279,18 @@ impl<'a> World<'a> {
             parts.push(format!("{}:{}", self.opname(i), st));
         }
         parts.join("|")
+    }
+
+    /// after a panic of the code under test: releases what belongs to the harness (pool jobs
+    /// blocked on a gate, the allocator sink) and leaks the rest without running any destructor
+    pub fn abandon(self) {
+        for r in &self.ress {
+            if let ResKind::Gate(g) = &r.kind {
+                g.open();
+            }
+        }
+        set_pool_sink(None);
+        std::mem::forget(self);
     }
 
     pub fn finish(&mut self) {
